@@ -119,7 +119,9 @@ def generate_code(prog: Program, eng=None) -> str:
             modes_str = ", ".join(modes)
         else:
             modes_str = "(" + ", ".join(modes) + ")"
-        op = f"    ops.{name}({params_str}) | {modes_str}"
+        # the inverse of a gate is written with its .H attribute
+        inverse = ".H" if getattr(cmd.op, "dagger", False) else ""
+        op = f"    ops.{name}({params_str}){inverse} | {modes_str}"
 
         code_seq.append(op)
 
